@@ -6,7 +6,7 @@ import json, os, re
 from collections import Counter
 
 PKG = "vdr/didnuts"
-HARNESS = ["vdr/didnuts/zz_verif_c09_test.go", "vdr/didnuts/zz_verif_c09entry_test.go"]
+HARNESS = ["vdr/didnuts/zz_verif_c09_test.go", "vdr/didnuts/zz_verif_c09entry_test.go", "vdr/didnuts/zz_verif_c09mgr_test.go"]
 
 REQUIRED = ["accepted_create_sound", "accepted_create_signed_by_did_key", "accepted_update_sound",
             "accepted_update_signed_by_controller_key", "accepted_update_authorised_under_every_named_version", "signing_time_irrelevant_when_prevs_pin", "callback_accepts_iff", "reprocess_is_callback_again", "resolvable_only_if_accepted", "rejected_inert", "accepted_changes_own_did_only",
@@ -23,7 +23,10 @@ REQUIRED = ["accepted_create_sound", "accepted_create_signed_by_did_key", "accep
             "lookup_fault_never_accepts", "fallback_lookup_fault_never_accepts", "lookup_fault_not_hit", "callback_of_reachesUpdate",
             "seenSet_same_key", "seenSet_key_mismatch_misses", "validateSvcs_ok_seenSet", "validateSvcs_ok_types_nodup",
             "fact_start_subscription", "fact_did_document_type", "fact_network_event_classification",
-            "fact_update_lookup_error_branch", "fact_service_type_seen_set_keys"]
+            "fact_update_lookup_error_branch", "fact_service_type_seen_set_keys",
+            # publishing path (NutsProofs.Props.C09Manager): Manager.Update / resolveControllerWithKey
+            "managerUpdate_sound", "managerUpdate_deactivated_refused", "managerUpdate_needs_controller_key",
+            "firstOwnedKey_sound", "firstOwnedKey_none", "fact_manager_update_steps", "fact_manager_key_choice"]
 
 FULL_DOC_RE = re.compile(r"doc=(\S+?)\{Context:\[[^\]]*\];Controller:\[([^\]]*)\];VerificationMethod:\[([^\]]*)\];Authentication:\[[^\]]*\];"
                          r"AssertionMethod:\[[^\]]*\];CapabilityInvocation:\[([^\]]*)\];CapabilityDelegation:\[[^\]]*\];KeyAgreement:\[[^\]]*\];Service:\[([^\]]*)\]")
@@ -206,7 +209,7 @@ def embedded_illformed(doc):
 
 def run(ctx):
     ctx.facts()
-    thms = ctx.build_and_audit(["NutsProofs.Props.C09", "NutsProofs.Props.C09Entry"])
+    thms = ctx.build_and_audit(["NutsProofs.Props.C09", "NutsProofs.Props.C09Entry", "NutsProofs.Props.C09Manager"])
     for r in REQUIRED:
         if not any(t.endswith("Props." + r) for t in thms):
             ctx.oblige("thm-present:" + r, False, "theorem missing or its module does not build")
@@ -269,6 +272,7 @@ def run(ctx):
     # ---- direct property oracles on the implementation's own outputs
     kinds, classes, labels = Counter(), Counter(), Counter()
     distinct = set()
+    mgr_classes, published = Counter(), Counter()   # Manager.Update outcomes; how the ambassador answered what the node published
     entry_hits = Counter()  # executed failing store calls per fault kind
     entry = Counter()      # entry layer: (event type class, payload type class, fault) -> outcome kind
     n_pairs = n_ok = n_embedded_illformed = n_deactivated_controller = n_deactivated_after = n_dag = n_reprocess = n_reprocess_changed = 0
@@ -334,8 +338,40 @@ def run(ctx):
                 report("dag-verifier-admits-what-the-model-refuses:" + re.sub(r"[^a-z:-]", "", model[i].split(" ")[-1]),
                        "the DAG signature verifier admitted a transaction that the model's verifier refuses with " + model[i].split(" ")[-1], i)
             continue
+        if op["op"] == "mgr":
+            # ---- the node's own publishing path (Manager.Update): direct oracles on what the implementation handed to the network
+            mm = re.match(r"mgr \S+ (\S+)(?: kid=(\S+) prevs=\[([^\]]*)\])?(.*)$", line)
+            if not mm:
+                report("unparseable-line", "harness output line not understood", i)
+                continue
+            mcls, mkid, _mprevs, mrest = mm.groups()
+            mgr_classes[mcls] += 1
+            if "NONDETERMINISTIC" in mrest:
+                report("manager-nondeterministic", "Manager.Update chose differently on the replay node: " + mrest.strip(), i)
+            if mcls.startswith("panic") or "MISMATCH" in mcls:
+                report("manager-" + re.sub(r"[^a-zA-Z:-]", "", mcls)[:60], "Manager.Update: " + mcls, i)
+            if mcls == "ok":
+                if mkid not in op.get("has", []):
+                    report("manager-signs-with-a-key-the-node-does-not-hold", f"Manager.Update published with kid {mkid}, which the key store does not have", i)
+                docs = stored_docs(cur_obs)
+                mine = docs.get(op["id"], [])
+                frag = mkid.split("#", 1)[1] if "#" in mkid else mkid
+                listed = any(frag in keys for ctrl, keys in mine if not ctrl or op["id"] in ctrl) or \
+                    any(frag in keys for ctrl, _ in mine for cdid in ctrl if cdid != op["id"] for _, keys in docs.get(cdid, []))
+                if not listed:
+                    report("manager-signs-with-a-key-no-controller-lists",
+                           f"Manager.Update published an update of {op['id']} signed with {mkid}, which no stored version of the DID (self-controlled) "
+                           "or of a controller lists for capabilityInvocation", i)
+                if op["id"] in latest_deactivated(cur_obs):
+                    report("manager-updates-a-deactivated-did", "Manager.Update published an update of a DID whose latest version is deactivated", i)
+                wf = wellformed_nuts(op["doc"]) if op.get("doc") else "unparseable"
+                if wf:
+                    report("manager-publishes-ill-formed-document", "Manager.Update published a document violating the Nuts method rules at " + wf, i)
+            continue
         if op["op"] != "pair":
             continue
+        if op["raw"]["kind"] == "mgr:published":
+            published[line.split(" ")[2] if line.count(" ") >= 2 else "?"] += 1
         if "cb" in op:   # per-delivery flag (false is omitted by the harness); older replay files: history-level mode
             verified = bool(op.get("verified", False))
         else:
@@ -534,6 +570,8 @@ def run(ctx):
                                      "accepted": n_ok, "rejected": n_pairs - n_ok,
                                      "entry_layer_events(event type, payload type, store fault, outcome)": {" | ".join(k): v for k, v in sorted(entry.items())},
                                      "executed_failing_store_calls": dict(sorted(entry_hits.items())),
+                                     "manager_update_outcomes": dict(sorted(mgr_classes.items())),
+                                     "ambassador_verdict_on_published_updates": dict(sorted(published.items())),
                                      "reprocess_runs": n_reprocess, "reprocess_runs_that_changed_the_store": n_reprocess_changed,
                                      "delayed_vdr_dag_verdicts": dict(sorted(dag_classes.items())),
                                      "scripted_step_outcomes": dict(sorted(scripted_outcomes.items())),
